@@ -12,9 +12,10 @@ rm -rf "$WT"; git -C /repo worktree prune
 git -C /repo worktree add -q --detach "$WT" HEAD || exit 9
 cd "$WT"
 echo "== $P/$K" > "$OUT"
-PYTHONPATH=$WT FORCE_BINJA_MOCK=1 /venv/bin/python "$SRC/demo.py" >/dev/null 2>&1; echo "demo_pristine_exit=$?" >> "$OUT"
+rundemo() { if [ -f "$SRC/demo.rs" ]; then /verif/tools/rustdemo.sh "$WT" "$SRC/demo.rs" >/dev/null 2>&1; else PYTHONPATH=$WT FORCE_BINJA_MOCK=1 /venv/bin/python "$SRC/demo.py" >/dev/null 2>&1; fi; }
+rundemo; echo "demo_pristine_exit=$?" >> "$OUT"
 if git apply --3way "$SRC/patch.diff" 2>>"$OUT"; then echo "applies=yes" >> "$OUT"; else echo "applies=NO" >> "$OUT"; git -C /repo worktree remove --force "$WT"; cat "$OUT"; exit 0; fi
-PYTHONPATH=$WT FORCE_BINJA_MOCK=1 /venv/bin/python "$SRC/demo.py" >/dev/null 2>&1; echo "demo_mutant_exit=$?" >> "$OUT"
+rundemo; echo "demo_mutant_exit=$?" >> "$OUT"
 if [ "${SKIP_SUITE:-0}" != 1 ]; then
   PYTHONPATH=$WT FORCE_BINJA_MOCK=1 /venv/bin/python -m pytest -q -p no:cacheprovider --timeout=900 --continue-on-collection-errors 2>&1 | tail -1 >> "$OUT"
 fi
